@@ -471,6 +471,16 @@ def b_abs(ip, st, args, kwargs):
     return mk(z3.If(x >= 0, x, -x), 'int')
 
 
+def b_pow(ip, st, args, kwargs):
+    # pow() on concrete ints only (2 or 3 arguments); symbolic powers go through the ** operator's model
+    if all(isinstance(a, int) and not isinstance(a, bool) for a in args) and len(args) in (2, 3) and not kwargs:
+        try:
+            return pow(*args)
+        except (ValueError, ZeroDivisionError) as e:
+            _raise(type(e).__name__, str(e))
+    raise Unsupported('pow() with symbolic arguments')
+
+
 def b_sum(ip, st, args, kwargs):
     r = args[1] if len(args) > 1 else 0
     for v in ops.iter_values(ip, st, args[0]):
@@ -587,7 +597,7 @@ BUILTIN_IMPL = {
     'bytes': b_bytes, 'bytearray': b_bytearray, 'isinstance': b_isinstance, 'max': b_max, 'min': b_min,
     'sorted': b_sorted, 'enumerate': b_enumerate, 'list': b_list, 'tuple': b_tuple, 'dict': b_dict, 'set': b_set,
     'any': b_any, 'all': b_all, 'getattr': b_getattr, 'hasattr': b_hasattr, 'print': b_print, 'repr': b_repr,
-    'abs': b_abs, 'sum': b_sum, 'zip': b_zip, 'implies': b_implies, 'iff': b_iff, 'bin': b_bin, 'type': b_type,
+    'abs': b_abs, 'pow': b_pow, 'sum': b_sum, 'zip': b_zip, 'implies': b_implies, 'iff': b_iff, 'bin': b_bin, 'type': b_type,
     'float': b_float, 'callable': b_callable,
 }
 
